@@ -641,6 +641,7 @@ theorem normValue_idem : ∀ v : J, normValue (normValue v) = normValue v
   | .bool _ => rfl
   | .num _ => rfl
   | .str _ => rfl
+  | .raw _ => rfl
   | .arr xs => by
     simp only [normValue]
     rw [normList_idem xs]
